@@ -55,6 +55,10 @@ func c09Value(s *dialect.Schema, comps map[string]*dialect.Schema, rng *rand.Ran
 		}
 		if !noEmpty {
 			vals = append(vals, "")
+			if rng.Intn(5) == 0 {
+				// (the empty string is the one value whose presence is not visible in its length: weighted)
+				return wrap("S(" + dialect.Hx("") + ")")
+			}
 		}
 		return wrap("S(" + dialect.Hx(vals[rng.Intn(len(vals))]) + ")")
 	case "integer":
